@@ -61,7 +61,7 @@ func renderDpkg(recs []crec, l lay) rendered {
 			// other field order (Version first, Package last), a not-installed record without Version,
 			// look-alike text inside folded lines, tab-folded continuation
 			if r.Inst || r.ID%2 == 0 {
-				out = append(out, "Version: "+r.Raw)
+				out = append(out, "version: "+r.Raw) // field names are not case-sensitive (deb822)
 			}
 			out = append(out,
 				"Architecture: all",
@@ -72,9 +72,9 @@ func renderDpkg(recs []crec, l lay) rendered {
 				" .",
 				"\tfolded with a tab",
 				"Config-Version: "+r.Raw,
-				"Essential: yes",
-				"Status: "+st,
-				"Package: "+r.Name)
+				"essential: yes",
+				"STATUS: "+st,
+				"package: "+r.Name)
 		}
 	}
 	return rendered{files: map[string]string{"var/lib/dpkg/status": finish(out, l)}}
@@ -128,11 +128,12 @@ func renderApk(recs []crec, l lay) rendered {
 				"r:replaced-package",
 				"i:installed-if-this",
 				"k:100",
+				"P:"+r.Name,
+				"A:noarch",
 				"F:usr/share/P:odd-dir",
 				"M:0:0:1777",
 				"R:V:odd-file",
-				"P:"+r.Name,
-				"A:noarch")
+				"Z:Q1vfk1apUWI4yLJGhhNRd0kJixfvY=")
 		}
 	}
 	return rendered{files: map[string]string{"lib/apk/db/installed": finish(out, l)}}
@@ -213,13 +214,13 @@ func renderRequirements(recs []crec, l lay) rendered {
 	files := map[string]string{}
 	main := body(a, true)
 	if l.Sect != 0 {
-		inc := "-r more/other-requirements.txt"
+		inc := "-r more/base-deps.txt"
 		if l.Sect == 2 {
 			main = append([]string{inc}, main...)
 		} else {
 			main = append(main, inc)
 		}
-		files["more/other-requirements.txt"] = finish(body(b, false), l)
+		files["more/base-deps.txt"] = finish(body(b, false), l)
 	}
 	files["requirements.txt"] = finish(main, l)
 	return rendered{files: files}
@@ -295,7 +296,7 @@ func renderGomod(recs []crec, l lay) rendered {
 	case 1:
 		out = append(out, block(a)...)
 		out = append(out, block(b)...)
-	default:
+	default: // 2: single-line requires first, then the block; 3: single-line requires only
 		out = append(out, singles(b)...)
 		out = append(out, block(a)...)
 	}
@@ -304,6 +305,8 @@ func renderGomod(recs []crec, l lay) rendered {
 			"exclude example.com/excluded v1.0.0",
 			"",
 			"replace example.com/not-required => example.com/fork v1.2.3",
+			"",
+			"replace example.com/not-required-either v1.0.0 => ../local/fork",
 			"",
 			"retract v0.9.0 // published by mistake")
 	}
@@ -345,7 +348,7 @@ func renderGemfile(recs []crec, l lay) rendered {
 	var otherSecs [][]string
 	for _, k := range other {
 		r := recs[k]
-		if l.Sect == 1 {
+		if l.Sect == 1 || (l.Sect == 3 && k%2 == 0) {
 			otherSecs = append(otherSecs, append([]string{"GIT",
 				"  remote: https://github.com/example/" + r.Name + ".git",
 				"  revision: 9d2f852b1a1c0d1f5f3b6f7d6b6e0d3a2a1d4f5e",
@@ -369,12 +372,15 @@ func renderGemfile(recs []crec, l lay) rendered {
 		}
 		deps = append(deps, d)
 	}
+	if l.Sect == 3 && l.Extra == 0 {
+		gemSec = nil // no gem comes from a rubygems source
+	}
+	var tail [][]string // source sections written after everything else
 	switch {
-	case l.Sect == 2 && l.Extra >= 2:
-		// source section at the end
+	case l.Extra >= 2:
 		sections = append(sections, platforms, deps)
-		sections = append(sections, otherSecs...)
-		sections = append(sections, gemSec)
+		tail = append(tail, otherSecs...)
+		tail = append(tail, gemSec)
 	case l.Sect == 2:
 		sections = append(sections, otherSecs...)
 		sections = append(sections, gemSec, platforms, deps)
@@ -393,9 +399,13 @@ func renderGemfile(recs []crec, l lay) rendered {
 	if l.Extra >= 1 {
 		sections = append(sections, []string{"BUNDLED WITH", "   2.4.10"})
 	}
+	sections = append(sections, tail...)
 	var out []string
-	for i, s := range sections {
-		if i > 0 {
+	for _, s := range sections {
+		if s == nil {
+			continue
+		}
+		if len(out) > 0 {
 			out = append(out, "")
 		}
 		out = append(out, s...)
